@@ -514,3 +514,101 @@ func scenC03(run *vlab.Run, sx, tmp string) {
 		}
 	}
 }
+
+// ---------------------------------------------------------------------------
+// prefilter: traffic that is already flowing when the scan starts. Between the creation of the
+// AF_PACKET socket and the attachment of the BPF program the socket queues every frame; those
+// frames are later handed to the processor, which checks neither subnet nor ports. A record whose
+// only matching frame was injected BEFORE the first probe was seen is keyed `pre-filter-window`
+// (a known finding of the unchanged tree); any other spurious record is an ordinary violation.
+
+func init() { scenarios["c03pre"] = scenC03Pre }
+
+func scenC03Pre(run *vlab.Run, sx, tmp string) {
+	rng := run.Rand("c03pre")
+	n := run.Pick(12, 60)
+	for i := 0; i < n; i++ {
+		if !run.Mine(i) {
+			continue
+		}
+		port := uint16(1 + rng.Intn(65535))
+		subnet := fmt.Sprintf("10.9.%d.0/28", 1+rng.Intn(200))
+		args := []string{"tcp", "syn", "--json", "-i", "tap0", "--gwmac", gwMAC, "-p", fmt.Sprint(port), "--srcip", foreignSrcIP, subnet}
+		run.Case(fmt.Sprintf("pre%03d", i), args)
+		var mu sync.Mutex
+		firstProbe := false
+		type bg struct {
+			rec    string
+			before bool
+		}
+		var sent []bg
+		stop := make(chan struct{})
+		bgSrc := [4]byte{192, 168, 77, byte(1 + rng.Intn(250))}
+		spec := &CaseSpec{Args: args, Stdin: []byte{}, Setup: commonWorld("tap"), Timeout: 60 * time.Second,
+			OnStart: func(c *CaseRun) {
+				d := c.World.Dev("tap0")
+				seq := 0
+				for {
+					select {
+					case <-stop:
+						return
+					default:
+					}
+					mu.Lock()
+					fp := firstProbe
+					mu.Unlock()
+					if fp {
+						return
+					}
+					seq++
+					sp := uint16(1024 + seq%60000)
+					ip := oracle.BuildIPv4(oracle.NewIPSpec(bgSrc, foreignSrc, oracle.ProtoTCP), oracle.BuildTCP(bgSrc, foreignSrc, oracle.TCPSpec{SrcPort: sp, DstPort: 40000, Flags: oracle.FlagSYN | oracle.FlagACK, DataOff: -1}))
+					mu.Lock()
+					sent = append(sent, bg{recTCP(oracle.IPString(bgSrc), sp, ""), !firstProbe})
+					mu.Unlock()
+					c.Inject(d, oracle.BuildEth(tapMACb, [6]byte{2, 0, 0, 0, 0, 0x99}, oracle.EtherTypeIPv4, ip))
+					time.Sleep(200 * time.Microsecond)
+				}
+			},
+			OnTx: func(c *CaseRun, d *Dev, frame []byte) {
+				mu.Lock()
+				firstProbe = true
+				mu.Unlock()
+			}}
+		res := RunCase(sx, spec)
+		close(stop)
+		run.Eval(1)
+		if !baseChecks(run, res, args, true) {
+			continue
+		}
+		before := map[string]bool{}
+		mu.Lock()
+		for _, b := range sent {
+			if b.before {
+				before[b.rec] = true
+			}
+		}
+		nSent := len(sent)
+		mu.Unlock()
+		nPre := 0
+		for _, l := range res.Stdout {
+			rec, err := parseRecord(strings.TrimSpace(l))
+			if err != nil {
+				run.Violation("unparseable-record", fmt.Sprintf("stdout line is not a record: %.200q", l), args)
+				continue
+			}
+			if before[rec] {
+				nPre++
+				continue
+			}
+			run.Violation("spurious-record:background", fmt.Sprintf("record %q printed although no reply-shaped frame was injected and it matches no frame sent before the first probe: %s", rec, strings.Join(args, " ")), args)
+		}
+		if nPre > 0 {
+			run.Violation("pre-filter-window", fmt.Sprintf("%d records for frames from %s (outside the target subnet %s) that were on the wire before the first probe: the socket queues unfiltered frames until its BPF program is attached (%d background frames sent): %s", nPre, oracle.IPString(bgSrc), subnet, nSent, strings.Join(args, " ")), map[string]interface{}{"argv": args, "stdout": tailStr(strings.Join(res.Stdout, ""), 1500)})
+			run.Count("prefilter_runs_with_records", 1)
+		}
+		run.Count("prefilter_runs", 1)
+		run.Count("background_frames", int64(nSent))
+		run.Distinct(strings.Join(args, " "))
+	}
+}
